@@ -9,14 +9,19 @@ import (
 )
 
 var ZZEntries = map[string]func([]int){
-	"HRequiredMask": func(a []int) { HRequiredMask(a[0]) },
+	"HRequiredMask": func(a []int) { HRequiredMask(a[0], a[1]) },
 }
 
-func HRequiredMask(n int) {
+// mode 0: every field's requiredness symbolic; mode 1: only the byte-boundary positions
+func HRequiredMask(n, mode int) {
 	req := make([]bool, n)
 	var fs JSONFields
 	for i := range req {
-		req[i] = zz.Bool()
+		if mode == 0 || i == 0 || i%8 == 7 || i%8 == 0 || i == n-1 {
+			req[i] = zz.Bool()
+		} else {
+			req[i] = i%3 == 0
+		}
 		f := &Field{Name: "F"}
 		switch i % 3 {
 		case 0:
